@@ -558,6 +558,55 @@ class World:
         if link is not None and step.get("current", True):
             link.latency = step["latency"]
 
+    def op_user_init_discovered(self, step) -> None:
+        """init() + shutdown() of every client returned by discover(): shows host/port they connect to."""
+        for i, at in enumerate(self.discovered or []):
+            async def go(at=at):
+                r = await at.init()
+                await at.shutdown()
+                return r
+
+            self._spawn_user(dict(step, index=i), go)
+
+    # UDP (discovery)
+    def _udp_transport(self, port: int):
+        for tr in self.net.udp:
+            if tr.local_port == port and not tr._closing:
+                return tr
+        return None
+
+    def op_udp_deliver(self, step) -> None:
+        tr = self._udp_transport(step["port"])
+        data = bytes.fromhex(step["hex"])
+        if tr is None:
+            self.trace.add("udp.undeliverable", port=step["port"], data=data.hex())
+            return
+        tr.deliver(data, tuple(step.get("addr", ["10.0.0.9", step["port"]])))
+
+    def op_udp_responders(self, step) -> None:
+        """Reactive consoles: answer the n-th request seen on a port after a delay."""
+        self.udp_responders = step["responders"]
+        seen = {}
+
+        def handler(transport, data, addr):
+            port = transport.local_port
+            n = seen[port] = seen.get(port, 0) + 1
+            for r in self.udp_responders:
+                if r["port"] != port or n not in r.get("on_requests", [1, 2, 3]):
+                    continue
+                for k in range(r.get("copies", 1)):
+                    self.loop.sim_after(r["delay"] + k * r.get("copy_gap", 0.0), self._udp_reply, port, r)
+
+        self.net.udp_handler = handler
+
+    def _udp_reply(self, port: int, r: dict) -> None:
+        tr = self._udp_transport(port)
+        data = bytes.fromhex(r["hex"])
+        if tr is None:
+            self.trace.add("udp.undeliverable", port=port, data=data.hex())
+            return
+        tr.deliver(data, tuple(r.get("addr", ["10.0.0.9", port])))
+
     def op_net_clear_faults(self, step) -> None:
         """End of a fault script: nothing stays armed."""
         self.net.write_faults.clear()
